@@ -3,7 +3,7 @@ import json
 import os
 import random
 
-PATHS = [("/d", "a"), ("/d", "b"), ("/e", "a")]
+PATHS = [(("d",), "a"), (("d",), "b"), (("e",), "a")]
 CHUNK_CLASSES = [0, 1, 49, 50, 51, 500]
 
 
@@ -23,10 +23,12 @@ def script_from_hist(hist, rng, store, via, base):
     so that "update to the same entry" and "back to an earlier entry" both occur)"""
     desc = {}
     lines = [{"ev": "reset", "store": store, "via": via, "pbase": base,
-              "paths": [list(p) for p in PATHS], "ldirs": sorted({p[0] for p in PATHS})}]
+              "paths": [[list(p[0]), p[1]] for p in PATHS], "ldirs": [list(d) for d in sorted({p[0] for p in PATHS})]}]
     for op in hist:
         if op["ev"] == "delete":
             lines.append({"ev": "delete", "dir": op["dir"], "name": op["name"]})
+        elif op["ev"] == "deltree":
+            lines.append({"ev": "deltree", "dir": op["dir"]})
         else:
             if op["e"] not in desc:
                 desc[op["e"]] = descriptor(rng)
@@ -36,16 +38,18 @@ def script_from_hist(hist, rng, store, via, base):
 
 def random_exec(rng, store, via, base, length):
     """G4: longer histories over more paths (nested directories, names that extend one another)"""
-    dirs = ["/d", "/d/a", "/da", "/e"]
+    dirs = [["d"], ["d", "a"], ["d", "a", "b"], ["da"], ["e"]]
     names = ["a", "ab", "b", "a b", "日本", "x.txt"]
-    paths = [(d, n) for d in dirs for n in names if rng.random() < 0.5] or [("/d", "a")]
+    paths = [(d, n) for d in dirs for n in names if rng.random() < 0.4] or [(["d"], "a")]
     lines = [{"ev": "reset", "store": store, "via": via, "pbase": base,
               "paths": [list(p) for p in paths], "ldirs": dirs}]
     big = 0
     for _ in range(length):
         d, n = rng.choice(paths)
         r = rng.random()
-        if r < 0.2:
+        if r < 0.06:
+            lines.append({"ev": "deltree", "dir": rng.choice(dirs)})
+        elif r < 0.2:
             lines.append({"ev": "delete", "dir": d, "name": n})
         else:
             de = descriptor(rng)
@@ -74,6 +78,7 @@ def run(ctx):
     hists += ctx.generate(g2, workers=4, timeout=1500)
     rng = random.Random(ctx.seed)
     cfgs = [(s, v) for s in ("leveldb", "leveldb2", "leveldb3") for v in ("direct", "wrapper")]
+    cfgs_m = cfgs + [("leveldb2", "mounted")]  # + the wrapper with a path-specific store mounted at d
     script = os.path.join(ctx.out, "script.ndjson")
     if ctx.replay:
         script = ctx.replay
@@ -82,12 +87,12 @@ def run(ctx):
         for i, h in enumerate(hists):
             # every history on one configuration in turn (thorough: on two)
             for k in range(2 if ctx.thorough else 1):
-                store, via = cfgs[(i + 3 * k) % len(cfgs)]
+                store, via = cfgs_m[(i + 3 * k) % len(cfgs_m)]
                 base = "/buckets/bk%d" % rng.randrange(2) if (store == "leveldb3" and rng.random() < 0.4) else "/t"
                 execs.append(script_from_hist(h, rng, store, via, base))
         n4 = 1500 if ctx.thorough else 120
         for i in range(n4):
-            store, via = cfgs[i % len(cfgs)]
+            store, via = cfgs_m[i % len(cfgs_m)]
             base = "/buckets/bk%d" % rng.randrange(2) if (store == "leveldb3" and rng.random() < 0.4) else "/t"
             execs.append(random_exec(rng, store, via, base, rng.choice([4, 8, 12])))
         # every chunk-count class on every configuration, with and without gzip-looking values
@@ -98,11 +103,11 @@ def run(ctx):
                     d["gz"] = gz
                     d2 = descriptor(rng, chunks=ch)
                     execs.append([{"ev": "reset", "store": store, "via": via, "pbase": "/t",
-                                   "paths": [["/d", "a"], ["/d", "b"]], "ldirs": ["/d"]},
-                                  {"ev": "insert", "dir": "/d", "name": "a", "e": d},
-                                  {"ev": "insert", "dir": "/d", "name": "b", "e": d2},
-                                  {"ev": "update", "dir": "/d", "name": "a", "e": d2},
-                                  {"ev": "delete", "dir": "/d", "name": "b"}])
+                                   "paths": [[["d"], "a"], [["d"], "b"]], "ldirs": [["d"]]},
+                                  {"ev": "insert", "dir": ["d"], "name": "a", "e": d},
+                                  {"ev": "insert", "dir": ["d"], "name": "b", "e": d2},
+                                  {"ev": "update", "dir": ["d"], "name": "a", "e": d2},
+                                  {"ev": "delete", "dir": ["d"], "name": "b"}])
         with open(script, "w") as f:
             for ex in execs:
                 for e in ex:
@@ -124,12 +129,12 @@ def run(ctx):
     ctx.judge("MetaStoreTrace", trace, "trace_base.cfg", {"Paths": set(), "Entries": set(), "MaxOps": 0},
               nontrivial=lambda e: sum(1 for x in e if '"ev":"insert"' in x or '"ev":"update"' in x) >= 1,
               mutate=mutate, chunk_events=min(8000, max(500, sum(1 for _ in open(trace)) // 8 + 1)))
-    ctx.rule = ("executions = TLC-enumerated mutator histories (insert / update / delete over 3 paths in 2 directories, "
+    ctx.rule = ("executions = TLC-enumerated mutator histories (insert / update / delete / delete-children over 3 paths in 2 directories, "
                 "2 entry ids; G1 all of length 2 (thorough 3), G2 one witness per (store state, last operation) to depth "
                 "4 (thorough 5)) with entry ids expanded to seeded random rich entries, + seeded random histories of "
                 "4-12 operations over up to 24 paths in nested directories, + one execution per chunk-count class "
                 "{0,1,49,50,51,500} x gzip-looking values x configuration; configurations = leveldb, leveldb2, leveldb3 "
-                "x {direct, FilerStoreWrapper}; after every operation every path is looked up and every directory is "
+                "x {direct, FilerStoreWrapper} + the wrapper with a second store mounted below it (path translation); after every operation every path is looked up and every directory is "
                 "listed through both listing calls; non-trivial = at least one write; distinct by hash of the execution")
     ctx.exhaustive = True
     ctx.assumptions += [
